@@ -467,7 +467,16 @@ def make_dwarfinfo(sections, le, addr_size, addresses=None, machine_arch='x64', 
     """Build an elftools DWARFInfo directly from section byte strings (container independent)."""
     import io
     from elftools.dwarf.dwarfinfo import DWARFInfo, DebugSectionDescriptor, DwarfConfig
-    stream_cls = stream_cls or io.BytesIO
+    if stream_cls is None:
+        # the kind of stream is a dimension of its own (vf/streams.py): a third of the section sets is served by minimal read/seek/tell
+        # objects whose seek() returns None, chosen by the bytes so that a replayed case meets the same kind
+        import zlib
+        from vf import streams
+        h = 0
+        for name in sorted(sections):
+            if sections[name] is not None:
+                h = zlib.crc32(bytes(sections[name])[:4096], h)
+        stream_cls = streams.Minimal if h % 3 == 0 else io.BytesIO
     kw = {}
     for name, arg in SECTION_ARGS.items():
         data = sections.get(name)
